@@ -356,7 +356,7 @@ def report(a, findings, qs, info, t0):
                          "std models: " + ", ".join(sorted(set(sum(info["models"].values(), [])))),
                          "f64::powi / f64::powf are uninterpreted functions", "oracle: /verif/mirsym/builtinkernels.py oracle(), /verif/mirsym/strkernels.py oracle(), /verif/mirsym/strindexkernels.py (k-th character)"],
         "functions_encoded": info["functions"], "paths": info["paths"],
-        "bounds": "numeric methods to_int,to_bigint,to_byte,to_float,abs,sqrt,pow,powf,fpart,ipart,round,floor,ceil: every numeric receiver kind, full-width symbolic payload; pow: exponents 0..%d exact + all negative exponents, larger exponents outside the claim. String methods len,substring,delete,insert,split,reverse: receiver length 0..%d, inserted text length 0..%d, every character symbolic in 0x20..0x7E (multi-byte text outside the claim), every index a full-width symbolic i32. String indexing s[k] (instruction vec_op with a literal index): strings of 0..%d characters, every character symbolic over its whole UTF-8 width class, all 4^n class combinations, every k in 0..n+1; and s[i] with i a local variable of kind int / bigint / byte holding ANY value of its kind (strings of 0..%d characters); String repetition s * n and n * s: strings of 0..%d ASCII characters, n an int or bigint holding ANY value (repetitions beyond 3 kept as an opaque term with its count). contains/index_of/replace/chars/concatenation outside" % (B.POW_EXPONENTS[-1], S.LMAX.get(a.tier, 3), S.IMAX.get(a.tier, 2), X.NMAX.get(a.tier, 3), X.VAR_NMAX.get(a.tier, 2), R.LMAX.get(a.tier, 2)),
+        "bounds": "numeric methods to_int,to_bigint,to_byte,to_float,abs,sqrt,pow,powf,fpart,ipart,round,floor,ceil: every numeric receiver kind, full-width symbolic payload; pow: exponents 0..8 and 63, 64, 126, 127, %d exact (the large ones through the exact table of representable bases) + all negative exponents, other exponents outside the claim. String methods len,substring,delete,insert,split,reverse: receiver length 0..%d, inserted text length 0..%d, every character symbolic in 0x20..0x7E (multi-byte text outside the claim), every index a full-width symbolic i32. String indexing s[k] (instruction vec_op with a literal index): strings of 0..%d characters, every character symbolic over its whole UTF-8 width class, all 4^n class combinations, every k in 0..n+1; and s[i] with i a local variable of kind int / bigint / byte holding ANY value of its kind (strings of 0..%d characters); String repetition s * n and n * s: strings of 0..%d ASCII characters, n an int or bigint holding ANY value (repetitions beyond 3 kept as an opaque term with its count). contains/index_of/replace/chars/concatenation outside" % (B.POW_EXPONENTS[-1], S.LMAX.get(a.tier, 3), S.IMAX.get(a.tier, 2), X.NMAX.get(a.tier, 3), X.VAR_NMAX.get(a.tier, 2), R.LMAX.get(a.tier, 2)),
         "solver_time_s": round(qs.solver_s, 2),
         "samples": qs.samples[:8] + [f.as_dict() for f in (new + listed)[:6]],
         "known_findings_reported": len(seen), "new_violations": len(new),
